@@ -122,7 +122,7 @@ fn pool(o: Opt, base: &[&str], iri_extra: &[&str], with_pct: bool) -> Vec<String
 
 pub fn scheme() -> BoxedStrategy<String> {
 	prop_oneof![
-		6 => select(sv(&["a", "x", "http", "A", "a1+.-", "data", "urn", "Z9", "b.c", "file"])),
+		6 => select(sv(&["a", "x", "http", "A", "a1+.-", "data", "urn", "Z9", "b.c", "file", "https", "ftp", "mailto", "ws", "FILE", "javascript", "blob", "about"])),
 		1 => "[A-Za-z][A-Za-z0-9+.-]{0,12}".prop_map(|s| s),
 	]
 	.boxed()
@@ -133,7 +133,7 @@ pub fn segment(o: Opt) -> BoxedStrategy<String> {
 		o,
 		&[
 			"a", "b", "", ".", "..", "a:b", ":", "1:b", "c", "@", "a;p=1", "~", "...", ".a", "a.", "..b",
-			"x:", ":x", "a@b", "seg", "0", "+:", "a-b:c", "a.b:",
+			"x:", ":x", "a@b", "seg", "0", "+:", "a-b:c", "a.b:", "C:", "c:", "index.html", "localhost",
 		],
 		&["\u{e9}:b", "\u{e9}", "\u{8a9e}", "\u{10000}", "\u{a0}\u{d7ff}"],
 		true,
@@ -588,6 +588,9 @@ pub enum Variant {
 	/// percent-encode EVERY character of the host that is not unreserved (an
 	/// IP-literal becomes a registered name that decodes to the same octets)
 	EncodeWholeHost(bool),
+	/// percent-encode a DELIMITER inside the authority (':' before the port or '@' after the
+	/// user info): a near miss - `h%3A80` is a host without port, not `h:80`
+	EncodeDelimiter(u8),
 	/// authority absent <-> present-but-empty
 	ToggleEmptyAuthority,
 	/// replace the query / the fragment by another small value (near miss; two of them
@@ -620,6 +623,7 @@ pub fn variant() -> BoxedStrategy<Variant> {
 		2 => (any::<u16>(), any::<u8>()).prop_map(|(k, c)| Variant::MergeSegments(k, c)),
 		1 => any::<bool>().prop_map(Variant::EncodeWholeHost),
 		1 => Just(Variant::ToggleEmptyAuthority),
+		1 => any::<u8>().prop_map(Variant::EncodeDelimiter),
 		1 => any::<u8>().prop_map(Variant::ChangeQuery),
 		1 => any::<u8>().prop_map(Variant::ChangeFragment),
 	]
@@ -874,6 +878,18 @@ pub fn apply_variant(p: &Parts, v: &Variant) -> Parts {
 			sg.push("z".into());
 			set_path(&mut q, abs, sg);
 		}
+		Variant::EncodeDelimiter(k) => {
+			if let Some(a) = &q.authority {
+				let which = if k % 2 == 0 { ':' } else { '@' };
+				// only outside an IP-literal
+				let close = a.rfind(']').map(|i| i + 1).unwrap_or(0);
+				let pos = if which == '@' { a.find('@') } else { a[close..].rfind(':').map(|i| i + close) };
+				if let Some(i) = pos {
+					let enc = if which == ':' { if k % 4 < 2 { "%3A" } else { "%3a" } } else { "%40" };
+					q.authority = Some(format!("{}{}{}", &a[..i], enc, &a[i + 1..]));
+				}
+			}
+		}
 		Variant::ToggleEmptyAuthority => {
 			match q.authority.as_deref() {
 				None => {
@@ -918,4 +934,14 @@ pub fn apply_variant(p: &Parts, v: &Variant) -> Parts {
 		}
 	}
 	q
+}
+
+
+/// Sizes for the "huge argument" blocks: above every size-class threshold a
+/// real implementation might special-case (64 KiB, 1 MiB, ...).
+pub fn huge_sizes(tier: crate::engine::Tier) -> Vec<usize> {
+	match tier {
+		crate::engine::Tier::Quick => vec![(1 << 20) + 3, 2 << 20],
+		crate::engine::Tier::Thorough => vec![65_537, 1 << 19, (1 << 20) - 1, 1 << 20, (1 << 20) + 3, 2 << 20, 3 << 20, (8 << 20) + 1],
+	}
 }
